@@ -170,7 +170,7 @@ impl Arg {
 
 pub fn canon_f(bits: u32) -> u32 { if f32::from_bits(bits).is_nan() { 0x7fc0_0000 } else { bits } }
 
-fn float_text(bits: u32) -> String {
+pub(crate) fn float_text(bits: u32) -> String {
     let x = f32::from_bits(bits);
     let mag = x.abs();
     let body = if mag.is_infinite() { "INF".to_string() } else { let mut s = format!("{}", mag); if !s.contains('.') && !s.contains('e') { s.push_str(".0"); } s };
@@ -218,7 +218,7 @@ pub fn mapfile_text(lang: Lang, abis: &[Vec<Enc>]) -> String {
 }
 
 /// warning / error classes in emission order (first line of each diagnostic, cut like `diag_class`)
-fn classes(diagnostics: &str, prefix: &str) -> Vec<String> {
+pub(crate) fn classes(diagnostics: &str, prefix: &str) -> Vec<String> {
     let mut out = vec![];
     for line in diagnostics.lines() {
         if let Some(rest) = line.strip_prefix(prefix) {
